@@ -13,7 +13,7 @@
    The tie to /repo: whole-service correspondence of the Process model with the implementation on generated pod/container
    populations, and the direct oracle of tools/props/C09.py on implementation output. *)
 From Coq Require Import Sorting.Sorted.
-From QV Require Import Model.Base Generated.Tables Model.Quote Model.Unit Model.Parser Model.Path Model.Names Model.Convert Model.Process Proofs.C07 Proofs.C07run Proofs.C08 Proofs.C09 Proofs.C09run.
+From QV Require Import Model.Base Generated.Tables Model.Quote Model.Unit Model.Parser Model.Path Model.Names Model.Convert Model.Process Proofs.C07 Proofs.C07run Proofs.C08 Proofs.C09 Proofs.C09run Model.ProcessD Proofs.RunTrees.
 
 (* ---- the whole run ---- *)
 (* loaded_units files: the units that loaded; sort_units: by type priority; table_of: the name table before any conversion;
@@ -106,3 +106,47 @@ Theorem C09_slash_refuted :
   service_file_name slash_info = s2l "b.service" /\ (s2l "%t/" ++ i_service_name slash_info ++ s2l ".pod-id") = s2l "%t/a/b.pod-id" /\
   (s2l "%t/" ++ pod_unit_name slash_info ++ s2l ".pod-id") = s2l "%t/b.pod-id".
 Proof. exact slash_in_service_name. Qed.
+
+(* ---- the same on the run with drop-ins (Model/ProcessD.v: every unit is merged with its drop-ins before the name table is built):
+   tree_units b files are the units that loaded, each merged with its drop-ins ---- *)
+Theorem C09_pods_want_exactly_their_members_with_dropins : forall podman exists_path kill_fixed mount_nl b files l1 xp l2 P svc sp t',
+  sort_units (tree_units b files) = l1 ++ xp :: l2 -> i_type (l_info xp) = TPod -> file_name (l_path xp) = Some P ->
+  let tbl0 := table_of (sort_units (tree_units b files)) in
+  convert_one podman exists_path kill_fixed mount_nl (l_unit xp) (l_path xp) (i_type (l_info xp))
+              (final_tbl podman exists_path kill_fixed mount_nl l1 tbl0) = COk (svc, sp, t') ->
+  (forall x, In x l2 -> i_type (l_info x) <> TContainer) /\
+  sfile tbl0 P = Some sp /\
+  exists pre, (pre = [] \/ pre = [s2l "network-online.target"]) /\
+    vals svc SEC_U (s2l "Wants") = pre ++ vals (l_unit xp) SEC_U (s2l "Wants")
+                                   ++ map quote_value (members podman exists_path kill_fixed mount_nl l1 tbl0 P) /\
+    vals svc SEC_U (s2l "Before") = vals (l_unit xp) SEC_U (s2l "Before")
+                                    ++ map quote_value (members podman exists_path kill_fixed mount_nl l1 tbl0 P).
+Proof. exact trees_pods_want_exactly_their_members. Qed.
+
+Theorem C09_members_are_bound_to_their_pod_with_dropins : forall podman exists_path kill_fixed mount_nl b files l1 xc l2 svc sp t' c p,
+  sort_units (tree_units b files) = l1 ++ xc :: l2 -> i_type (l_info xc) = TContainer ->
+  @lk berr (l_unit xc) c_CONTAINER_SECTION (s2l "Pod") = COk (Some (c :: p)) ->
+  let tbl0 := table_of (sort_units (tree_units b files)) in
+  convert_one podman exists_path kill_fixed mount_nl (l_unit xc) (l_path xc) (i_type (l_info xc))
+              (final_tbl podman exists_path kill_fixed mount_nl l1 tbl0) = COk (svc, sp, t') ->
+  exists psf, sfile tbl0 (c :: p) = Some psf /\ ends_with (s2l ".pod") (c :: p) = true /\
+    In (quote_value psf) (vals svc SEC_U (s2l "BindsTo")) /\ In (quote_value psf) (vals svc SEC_U (s2l "After")) /\
+    (exists before pre post, vals svc SEC_S (s2l "ExecStart") =
+       before ++ [quote_words (pre ++ [s2l "--pod-id-file"; s2l "%t/" ++ strip_service psf ++ s2l ".pod-id"] ++ post)]) /\
+    (start_with_pod (l_unit xc) = true ->
+       own_sfile xc (final_tbl podman exists_path kill_fixed mount_nl l1 tbl0) = Some sp /\
+       In sp (members podman exists_path kill_fixed mount_nl (l1 ++ [xc]) tbl0 (c :: p))).
+Proof. exact trees_members_are_bound_to_their_pod. Qed.
+
+(* the units of that run are what the theorems above are about: the conversions of process_trees are the run over them *)
+Theorem C09_run_with_dropins_is : forall podman exists_path kill_fixed mount_nl b files,
+  snd (process_trees podman exists_path kill_fixed mount_nl b files) =
+  convert_all podman exists_path kill_fixed mount_nl (sort_units (tree_units b files)) (table_of (sort_units (tree_units b files))).
+Proof. exact process_trees_snd. Qed.
+
+(* a container made a member by a DROP-IN is wanted by the pod; a drop-in that says nothing about Pod= changes nothing for it *)
+Theorem C09_dropin_membership_example :
+  tree_pod_wants [ext_pod; ext_plain] = Some [s2l "network-online.target"] /\
+  tree_pod_wants [ext_pod; ext_other] = Some [s2l "network-online.target"] /\
+  tree_pod_wants [ext_pod; ext_joined] = Some [s2l "network-online.target"; s2l "in.service"].
+Proof. exact dropin_membership_example. Qed.
